@@ -62,8 +62,12 @@ pub enum Stdin<'a> {
 pub struct Limits {
     pub as_bytes: u64,
     pub stack_bytes: Option<u64>,
+    /// CPU seconds (RLIMIT_CPU; the kernel ends the child with SIGXCPU).  Only set where the reference knows the program
+    /// executes a handful of instructions, so that the limit is thousands of times the work: a child that burns it is
+    /// spinning, which -- unlike a wall-clock budget -- does not depend on how loaded the machine is
+    pub cpu_secs: Option<u64>,
 }
-pub const DEFAULT_LIMITS: Limits = Limits { as_bytes: 3 << 30, stack_bytes: None };
+pub const DEFAULT_LIMITS: Limits = Limits { as_bytes: 3 << 30, stack_bytes: None, cpu_secs: None };
 
 /// run the CLI on `source`
 pub fn run_cli(source: &[u8], stdin: Stdin, interpreted: bool, out_cap: usize, timeout_ms: u64) -> CliOut {
@@ -77,6 +81,10 @@ pub fn run_cli_limited(source: &[u8], stdin: Stdin, interpreted: bool, out_cap: 
 /// the emulator built from the working tree in cargo's default (unoptimised) profile; built by the dispatcher only for
 /// the checks that ask how deep the emulator's own recursion may go (stack frames are several times larger there)
 pub const CLI_DEBUG_BIN: &str = "/verif/.build/cli-debug/debug/emulator_8086";
+
+pub fn debug_cli_available() -> bool {
+    std::path::Path::new(CLI_DEBUG_BIN).exists()
+}
 
 pub fn run_bin_limited(bin: &str, source: &[u8], stdin: Stdin, interpreted: bool, out_cap: usize, timeout_ms: u64, limits: Limits) -> CliOut {
     let n = COUNTER.fetch_add(1, Ordering::Relaxed);
@@ -118,6 +126,10 @@ pub fn run_bin_limited(bin: &str, source: &[u8], stdin: Stdin, interpreted: bool
             if let Some(st) = limits.stack_bytes {
                 let l = libc::rlimit { rlim_cur: st, rlim_max: st };
                 libc::setrlimit(libc::RLIMIT_STACK, &l);
+            }
+            if let Some(cs) = limits.cpu_secs {
+                let l = libc::rlimit { rlim_cur: cs, rlim_max: cs + 1 };
+                libc::setrlimit(libc::RLIMIT_CPU, &l);
             }
             let c = libc::rlimit { rlim_cur: 0, rlim_max: 0 };
             libc::setrlimit(libc::RLIMIT_CORE, &c);
